@@ -183,7 +183,12 @@ def roundtrip_monitor(tps, nticks, gen_ticks, cells, per_tick):
         if t == g:
             continue
         ov, q = overshoot(float(cell), tps, g)
-        if ov and (t == g + 1 or (t is None and g == nticks - 1)):
+        if float(cell) != g * (1.0 / tps):
+            # the recorded finding is about the float time of tick g (g * tick_length); any other written value
+            # is a different defect of the round trip
+            yield 'roundtrip-arrival', (f'gentrace at {tps} ticks/s wrote arrival_seconds {cell} for pipeline {i} generated in '
+                                        f'tick {g}, whose time is {g * (1.0 / tps)!r}; it is replayed in tick {t}')
+        elif ov and (t == g + 1 or (t is None and g == nticks - 1)):
             yield KNOWN, (f'gentrace round trip at {tps} ticks/s: pipeline {i} generated in tick {g} '
                           f'(arrival_seconds {cell}) is replayed in tick {"none (run over)" if t is None else t}; '
                           f'float quotient {float(cell)!r}/{1.0 / tps!r} = {q!r} > {g}')
@@ -348,7 +353,7 @@ def mixed_recipe(rng):
 
 
 def gentrace_recipe(rng):
-    tps = rng.choice([1, 2, 10, 100, 1000])
+    tps = rng.choice([1, 2, 10, 100, 1000, 3, 7, 16, 30, 60, 128, 333, 4096, 10000, 100000])
     nt = rng.choice([20, 60, 150, 300])
     wait_ticks = rng.choice([1, 1, 2, 3, 5, 10, 20])
     params = dict(ticks_per_second=tps, duration=nt / tps + rng.choice([0, 0, 0.5 / tps]),
